@@ -622,7 +622,48 @@ func checkSharedInstance(c *C13Case, st *Stats) error {
 	if !EqVBits(got, want) {
 		return errf("native export differs from the content when one container instance is stored at two positions: %s, expected %s", got.Show(), want.Show())
 	}
-	return nil
+	// every container of the tree is exported on its own (each of the two parents included), then the shared
+	// container changes through its own handle, then everything is exported again: each export must
+	// describe its container as it is at that time
+	exportAll := func(when string) error {
+		for i, x := range Idents(cont) {
+			want, err := Snap(x)
+			if err != nil {
+				return err
+			}
+			var nat any
+			if o, ok := x.(at.Object); ok {
+				nat = o.NativeDict()
+			} else {
+				nat = x.(at.List).NativeSlice()
+			}
+			var foreign []string
+			got := normNative(nat, &foreign, "$")
+			if len(foreign) > 0 || !EqVBits(got, want) {
+				return errf("%s: native export of container %d of a tree with a shared instance is %s, its content is %s %v", when, i, got.Show(), want.Show(), foreign)
+			}
+		}
+		return nil
+	}
+	if err := exportAll("before the shared container changes"); err != nil {
+		return err
+	}
+	switch x := from.(type) {
+	case at.List:
+		x.Add("changed after the exports")
+	case at.Object:
+		x.Set("changed after the exports", 1)
+	}
+	if err := exportAll("after the shared container was changed through its own handle"); err != nil {
+		return err
+	}
+	switch x := from.(type) {
+	case at.List:
+		x.Pop()
+	case at.Object:
+		x.Unset("changed after the exports")
+	}
+	return exportAll("after the change was undone")
 }
 
 // checkTypedSource converts a []Object / []List / map[string]Object / map[string]List source whose
